@@ -76,7 +76,7 @@ theorem classes_nil {r : RangeAst} {v : SemVerAst} (h : NpmRange.classes r v = [
     NpmRange.pre000 v = false ∧ NpmRange.gtSuccPre r v = false ∧ NpmRange.ltPartialPre r v = false := by
   unfold NpmRange.classes at h
   simp only [List.append_eq_nil_iff] at h
-  obtain ⟨⟨⟨⟨⟨⟨⟨h1, h2⟩, -⟩, -⟩, -⟩, -⟩, h7⟩, -⟩ := h
+  obtain ⟨⟨⟨⟨⟨⟨⟨⟨h1, h2⟩, -⟩, -⟩, -⟩, -⟩, h7⟩, -⟩, -⟩ := h
   refine ⟨?_, ?_, ?_⟩
   · cases hp : NpmRange.pre000 v
     · rfl
@@ -350,5 +350,96 @@ theorem ex_and_string :
   rw [e1] at h1
   rw [e2] at h2
   exact ⟨h1, h2⟩
+
+/-! ## OR lists with prerelease candidates: finding F-C03-or-merge-pre -/
+
+/-- The hypothesis that excludes F-C03-or-merge-pre (decidable; its negation is the harness's
+classifier `npmOrMergePre`): the candidate is a release, or no two `||` alternatives meet at a tagged
+full operand with the candidate's numbers (`NpmRange.meetAt`). -/
+def NoOrMergePre (r : RangeAst) (x : SemVerAst) : Prop := NpmRange.orMergePre r x = false
+
+instance (r : RangeAst) (x : SemVerAst) : Decidable (NoOrMergePre r x) :=
+  inferInstanceAs (Decidable (_ = false))
+
+/-- A range with a single alternative is outside the class. -/
+theorem noOrMergePre_single (a : Alt) (x : SemVerAst) : NoOrMergePre [a] x := by
+  simp [NoOrMergePre, NpmRange.orMergePre, NpmRange.pairsAny]
+
+/-- A release candidate is outside the class. -/
+theorem noOrMergePre_release (r : RangeAst) (x : SemVerAst) (hx : x.pre = []) : NoOrMergePre r x := by
+  simp [NoOrMergePre, NpmRange.orMergePre, hx]
+
+/-- `classes = []` includes the hypothesis. -/
+theorem classes_nil_noOrMerge {r : RangeAst} {v : SemVerAst} (h : NpmRange.classes r v = []) : NoOrMergePre r v := by
+  unfold NpmRange.classes at h
+  simp only [List.append_eq_nil_iff] at h
+  obtain ⟨-, h9⟩ := h
+  unfold NoOrMergePre
+  cases hp : NpmRange.orMergePre r v
+  · rfl
+  · rw [hp] at h9; cases h9
+
+/-- The witness of the finding is inside the class, and the two boundary shapes of the corpus
+(both ends excluded; different tags on the outer ends), on which the library agrees with node, are outside. -/
+example : ¬ NoOrMergePre w_ormerge ⟨2, 0, 0, [.alnum "b"]⟩ ∧
+    NoOrMergePre [.comps [⟨.lt, ⟨[.n 2, .n 0, .n 0], [.alnum "a"]⟩⟩], .comps [⟨.gt, ⟨[.n 2, .n 0, .n 0], [.alnum "a"]⟩⟩]]
+      ⟨2, 0, 0, [.alnum "b"]⟩ ∧
+    NoOrMergePre [.comps [⟨.ge, ⟨[.n 1, .n 0, .n 0], []⟩⟩, ⟨.le, ⟨[.n 2, .n 0, .n 0], [.alnum "a"]⟩⟩],
+        .comps [⟨.ge, ⟨[.n 2, .n 0, .n 0], [.alnum "a"]⟩⟩, ⟨.lt, ⟨[.n 3, .n 0, .n 0], []⟩⟩]]
+      ⟨2, 0, 0, [.alnum "b"]⟩ := by
+  refine ⟨by decide, by decide, by decide⟩
+
+/-- **Stated, not proved**: the extension of `npm_alt_partial` to OR lists (two or more `||`
+alternatives) and prerelease candidates, outside all finding classes (`classes = []` now contains
+`NoOrMergePre`). Release candidates are `npm_release_partial`; a single alternative is
+`npm_alt_partial`. What is missing is an analysis of which stored bounds `canon` keeps when it merges
+spans of different alternatives (C09 gives the interval meaning only); until then this rests on the
+correspondence harness (generator family `genAbutting`, every failure of `agree` classified). -/
+def C03_npm_or_pre_partial : Prop :=
+  ∀ (r : List (List Comparator)) (x : SemVerAst), r ≠ [] → (∀ cs ∈ r, cs ≠ []) → (∀ cs ∈ r, ∀ c ∈ cs, L1Dom c) →
+    CandB x → NpmRange.classes (r.map Alt.comps) x = [] →
+    (∀ cs ∈ r, ∀ c ∈ cs, c.p.pre ≠ [] → x.pre ≠ [] → PreAgree .npm x.pre c.p.pre) →
+    ∃ S, astSet .npm r = .ok S ∧
+      S.matchVersion (embedVer .npm x) false = .ok (NpmRange.satisfies (r.map Alt.comps) x)
+
+/-- Without `NoOrMergePre` the statement fails on the model (the witness satisfies every other
+hypothesis): the class is necessary. -/
+theorem or_pre_needs_noOrMerge :
+    ¬ (∀ (r : List (List Comparator)) (x : SemVerAst), r ≠ [] → (∀ cs ∈ r, cs ≠ []) → (∀ cs ∈ r, ∀ c ∈ cs, L1Dom c) →
+      CandB x → NpmRange.pre000 x = false → NpmRange.gtSuccPre (r.map Alt.comps) x = false →
+      NpmRange.ltPartialPre (r.map Alt.comps) x = false → NpmRange.signedIdent (r.map Alt.comps) x = false →
+      NpmRange.starCollapse (r.map Alt.comps) = false →
+      ∃ S, astSet .npm r = .ok S ∧
+        S.matchVersion (embedVer .npm x) false = .ok (NpmRange.satisfies (r.map Alt.comps) x)) := by
+  intro h
+  have d3 : ∀ (a b c : Nat) (pre : List Ident) (op : Op), a < B∞' → b < B∞' → c < B∞' → op ≠ .le →
+      L1Dom ⟨op, ⟨[.n a, .n b, .n c], pre⟩⟩ := fun a b c pre op ha hb hc hop =>
+    ⟨TShape.n3 a b c ha hb hc, fun _ => ⟨rfl, by simp⟩, fun h => absurd h hop⟩
+  obtain ⟨S, e, hm⟩ := h
+    [[⟨.ge, ⟨[.n 1, .n 0, .n 0], [.alnum "a"]⟩⟩, ⟨.le, ⟨[.n 2, .n 0, .n 0], [.alnum "a"]⟩⟩],
+     [⟨.ge, ⟨[.n 2, .n 0, .n 0], [.alnum "a"]⟩⟩, ⟨.lt, ⟨[.n 3, .n 0, .n 0], [.alnum "a"]⟩⟩]]
+    ⟨2, 0, 0, [.alnum "b"]⟩ (by decide) (by decide)
+    (by
+      intro cs hcs c hc
+      simp only [List.mem_cons, List.not_mem_nil, or_false] at hcs
+      rcases hcs with rfl | rfl <;> simp only [List.mem_cons, List.not_mem_nil, or_false] at hc <;> rcases hc with rfl | rfl
+      · exact d3 1 0 0 _ _ (by decide) (by decide) (by decide) (by decide)
+      · exact ⟨TShape.n3 2 0 0 (by decide) (by decide) (by decide), fun _ => ⟨rfl, by simp⟩, fun _ _ => by decide⟩
+      · exact d3 2 0 0 _ _ (by decide) (by decide) (by decide) (by decide)
+      · exact d3 3 0 0 _ _ (by decide) (by decide) (by decide) (by decide))
+    ⟨by decide, by decide, by decide⟩ (by decide) (by decide) (by decide) (by decide) (by decide)
+  have e' : astSet .npm
+      [[⟨.ge, ⟨[.n 1, .n 0, .n 0], [.alnum "a"]⟩⟩, ⟨.le, ⟨[.n 2, .n 0, .n 0], [.alnum "a"]⟩⟩],
+       [⟨.ge, ⟨[.n 2, .n 0, .n 0], [.alnum "a"]⟩⟩, ⟨.lt, ⟨[.n 3, .n 0, .n 0], [.alnum "a"]⟩⟩]] =
+      .ok { sys := .npm, span := [
+        { rank := .vector, minOpen := false, maxOpen := true,
+          min := some { sys := .npm, userNumCount := 3, isPrerelease := true, num := [1, 0, 0], pre := [[97]] },
+          max := some { sys := .npm, userNumCount := 3, isPrerelease := true, num := [3, 0, 0], pre := [[97]] } }] } := by
+    decide +kernel
+  rw [e'] at e
+  injection e with e
+  subst e
+  revert hm
+  decide +kernel
 
 end DepsDev.Props.C03
